@@ -3,6 +3,7 @@ from props.m2common import *  # noqa: F401,F403
 from props.m2common import g, sx, rng_for, fl, close, same, is_err, env_points
 
 PID = "C11"
+KERNELS = ['K_scale']   # translated from /repo on every run, tied to the model by coq/Gen/<name>_eq.v
 RUNNER = "impl_m2.py"
 N = {"quick": 1500, "thorough": 50000}
 LEVEL_RULE = ("envelopes (plain and FlexTempo) as C08; one edit per case: sample_at(t, append), extend_until(d), cut_out(a, b), "
@@ -97,6 +98,12 @@ def oracle(case, io, mo):
             return "splitting changed the original envelope"
     if grid is None:
         return "no grid"
+    for x in io[2:]:
+        if x and x[0] == "followup" and x[1] != "ok":
+            if x[1] == "misplaced":
+                return (f"{k}: the returned envelope holds one event object twice: a control point added one beat after its end "
+                        f"(at {x[2]}) lands elsewhere, point times afterwards {x[3]}")
+            return f"{k}: follow-up sample_at on the returned envelope: {x[1:]}"
     scale = max([1.0] + [abs(p[1]) for p in pts])
     f6 = None
     for row in grid:
